@@ -163,19 +163,24 @@ theorem substS_id_of_fresh (X : VId) (plug : Pat) : ∀ p : Pat, concrete p = tr
   | ex y p ih => intro hc h; simp [concrete] at hc; simp [sFresh] at h; simp [substS, ih hc h]
   | _ => intros; simp [substS]
 
-/-- deferred on metavariables (both implementations; Python only when the variable is not declared fresh) -/
+/-- deferred on metavariables — unless the metavariable declares the variable fresh, in which case
+the substitution is the identity; both implementations agree (F12 aligned the checker) -/
 theorem esubst_deferred_on_mv (x : VId) (plug : Pat) (id : VId) (ef sf ps ns hs : List VId) :
-    applyESubst x plug (mv id ef sf ps ns hs) = some (esub (mv id ef sf ps ns hs) x plug) ∧
-    (ef.contains x = false → Py.esub x plug (mv id ef sf ps ns hs) = esub (mv id ef sf ps ns hs) x plug) := by
-  constructor
-  · rfl
+    applyESubst x plug (mv id ef sf ps ns hs) = some (Py.esub x plug (mv id ef sf ps ns hs)) ∧
+    (ef.contains x = false → Py.esub x plug (mv id ef sf ps ns hs) = esub (mv id ef sf ps ns hs) x plug) ∧
+    (ef.contains x = true → Py.esub x plug (mv id ef sf ps ns hs) = mv id ef sf ps ns hs) := by
+  refine ⟨?_, ?_, ?_⟩
+  · simp only [applyESubst, Py.esub]; split <;> rfl
+  · intro h; simp only [Py.esub, h]; rfl
   · intro h; simp only [Py.esub, h]; rfl
 
 theorem ssubst_deferred_on_mv (X : VId) (plug : Pat) (id : VId) (ef sf ps ns hs : List VId) :
-    applySSubst X plug (mv id ef sf ps ns hs) = some (ssub (mv id ef sf ps ns hs) X plug) ∧
-    (sf.contains X = false → Py.ssub X plug (mv id ef sf ps ns hs) = ssub (mv id ef sf ps ns hs) X plug) := by
-  constructor
-  · rfl
+    applySSubst X plug (mv id ef sf ps ns hs) = some (Py.ssub X plug (mv id ef sf ps ns hs)) ∧
+    (sf.contains X = false → Py.ssub X plug (mv id ef sf ps ns hs) = ssub (mv id ef sf ps ns hs) X plug) ∧
+    (sf.contains X = true → Py.ssub X plug (mv id ef sf ps ns hs) = mv id ef sf ps ns hs) := by
+  refine ⟨?_, ?_, ?_⟩
+  · simp only [applySSubst, Py.ssub]; split <;> rfl
+  · intro h; simp only [Py.ssub, h]; rfl
   · intro h; simp only [Py.ssub, h]; rfl
 
 /-- instantiation is simultaneous: the value put for a metavariable is not instantiated again -/
@@ -204,55 +209,156 @@ theorem substitution_lemma_S (𝔐 : Model) (σ : MVKey → Sem 𝔐.M) (hσ : A
     eval 𝔐 σ r ρ = eval 𝔐 σ p (ρ.setS X (eval 𝔐 σ plug ρ)) :=
   applySSubst_sem 𝔐 σ hσ.1 hσ.2.1 X plug p r h ρ
 
-/-- the generator's substitution coincides with the checker's whenever the checker accepts and no
-metavariable declares the substituted variable fresh (`Py.esub`'s only shortcut) -/
-def noEf (x : VId) : Pat → Bool
-  | mv _ ef .. => !ef.contains x
-  | imp l r => noEf x l && noEf x r | app l r => noEf x l && noEf x r
-  | ex _ p => noEf x p | mu _ p => noEf x p
-  | _ => true
-
-theorem py_esubst_eq_rust (x : VId) (plug : Pat) : ∀ (p r : Pat), noEf x p = true →
+/-- the generator's substitution coincides with the checker's whenever the checker accepts — for
+**all** patterns (the checker only adds the capture checks) -/
+theorem py_esubst_eq_rust (x : VId) (plug : Pat) : ∀ (p r : Pat),
     applyESubst x plug p = some r → Py.esub x plug p = r := by
   intro p
   induction p with
-  | evar y => intro r _ h; simp only [applyESubst] at h; simp only [Py.esub]; split at h <;> simp_all
-  | svar _ => intro r _ h; simp [applyESubst] at h; simp [Py.esub, h]
-  | sym _ => intro r _ h; simp [applyESubst] at h; simp [Py.esub, h]
+  | evar y => intro r h; simp only [applyESubst] at h; simp only [Py.esub]; split at h <;> simp_all
+  | svar _ => intro r h; simp [applyESubst] at h; simp [Py.esub, h]
+  | sym _ => intro r h; simp [applyESubst] at h; simp [Py.esub, h]
   | imp l r ihl ihr =>
-    intro q hc h; simp [noEf] at hc; simp only [applyESubst] at h
+    intro q h; simp only [applyESubst] at h
     cases hl : applyESubst x plug l with
     | none => simp [hl] at h
     | some l' =>
       cases hr : applyESubst x plug r with
       | none => simp [hl, hr] at h
-      | some r' => simp [hl, hr] at h; subst h; simp [Py.esub, ihl l' hc.1 hl, ihr r' hc.2 hr]
+      | some r' => simp [hl, hr] at h; subst h; simp [Py.esub, ihl l' hl, ihr r' hr]
   | app l r ihl ihr =>
-    intro q hc h; simp [noEf] at hc; simp only [applyESubst] at h
+    intro q h; simp only [applyESubst] at h
     cases hl : applyESubst x plug l with
     | none => simp [hl] at h
     | some l' =>
       cases hr : applyESubst x plug r with
       | none => simp [hl, hr] at h
-      | some r' => simp [hl, hr] at h; subst h; simp [Py.esub, ihl l' hc.1 hl, ihr r' hc.2 hr]
+      | some r' => simp [hl, hr] at h; subst h; simp [Py.esub, ihl l' hl, ihr r' hr]
   | ex y p ih =>
-    intro q hc h; simp [noEf] at hc; simp only [applyESubst] at h; simp only [Py.esub]
+    intro q h; simp only [applyESubst] at h; simp only [Py.esub]
     split at h
     · simp_all
     · rename_i hy
       split at h <;> try contradiction
       cases hp : applyESubst x plug p with
       | none => simp [hp] at h
-      | some p' => simp [hp] at h; subst h; simp [hy, ih p' hc hp]
+      | some p' => simp [hp] at h; subst h; simp [hy, ih p' hp]
   | mu Y p ih =>
-    intro q hc h; simp [noEf] at hc; simp only [applyESubst] at h; simp only [Py.esub]
+    intro q h; simp only [applyESubst] at h; simp only [Py.esub]
     split at h <;> try contradiction
     cases hp : applyESubst x plug p with
     | none => simp [hp] at h
-    | some p' => simp [hp] at h; subst h; simp [ih p' hc hp]
-  | mv id ef sf ps ns hs => intro r hc h; simp [noEf] at hc; simp [applyESubst] at h; simp [Py.esub, hc, h]
-  | esub _ _ _ _ _ => intro r _ h; simp [applyESubst] at h; simp [Py.esub, h]
-  | ssub _ _ _ _ _ => intro r _ h; simp [applyESubst] at h; simp [Py.esub, h]
+    | some p' => simp [hp] at h; subst h; simp [ih p' hp]
+  | mv id ef sf ps ns hs =>
+    intro r h; simp only [applyESubst] at h; simp only [Py.esub]
+    split at h <;> simp_all
+  | esub _ _ _ _ _ => intro r h; simp [applyESubst] at h; simp [Py.esub, h]
+  | ssub _ _ _ _ _ => intro r h; simp [applyESubst] at h; simp [Py.esub, h]
+
+theorem py_ssubst_eq_rust (X : VId) (plug : Pat) : ∀ (p r : Pat),
+    applySSubst X plug p = some r → Py.ssub X plug p = r := by
+  intro p
+  induction p with
+  | svar y => intro r h; simp only [applySSubst] at h; simp only [Py.ssub]; split at h <;> simp_all
+  | evar _ => intro r h; simp [applySSubst] at h; simp [Py.ssub, h]
+  | sym _ => intro r h; simp [applySSubst] at h; simp [Py.ssub, h]
+  | imp l r ihl ihr =>
+    intro q h; simp only [applySSubst] at h
+    cases hl : applySSubst X plug l with
+    | none => simp [hl] at h
+    | some l' =>
+      cases hr : applySSubst X plug r with
+      | none => simp [hl, hr] at h
+      | some r' => simp [hl, hr] at h; subst h; simp [Py.ssub, ihl l' hl, ihr r' hr]
+  | app l r ihl ihr =>
+    intro q h; simp only [applySSubst] at h
+    cases hl : applySSubst X plug l with
+    | none => simp [hl] at h
+    | some l' =>
+      cases hr : applySSubst X plug r with
+      | none => simp [hl, hr] at h
+      | some r' => simp [hl, hr] at h; subst h; simp [Py.ssub, ihl l' hl, ihr r' hr]
+  | ex y p ih =>
+    intro q h; simp only [applySSubst] at h; simp only [Py.ssub]
+    split at h <;> try contradiction
+    cases hp : applySSubst X plug p with
+    | none => simp [hp] at h
+    | some p' => simp [hp] at h; subst h; simp [ih p' hp]
+  | mu Y p ih =>
+    intro q h; simp only [applySSubst] at h; simp only [Py.ssub]
+    split at h
+    · simp_all
+    · rename_i hy
+      split at h <;> try contradiction
+      cases hp : applySSubst X plug p with
+      | none => simp [hp] at h
+      | some p' => simp [hp] at h; subst h; simp [hy, ih p' hp]
+  | mv id ef sf ps ns hs =>
+    intro r h; simp only [applySSubst] at h; simp only [Py.ssub]
+    split at h <;> simp_all
+  | esub _ _ _ _ _ => intro r h; simp [applySSubst] at h; simp [Py.ssub, h]
+  | ssub _ _ _ _ _ => intro r h; simp [applySSubst] at h; simp [Py.ssub, h]
+
+/-- hence the checker's instantiation, whenever it accepts, is the generator's instantiation -/
+theorem py_inst_eq_rust (θ : VId → Option Pat) : ∀ (p r : Pat), inst θ p = some r → Py.inst θ p = r := by
+  intro p
+  induction p with
+  | evar _ => intro r h; simp [inst] at h; simp [Py.inst, h]
+  | svar _ => intro r h; simp [inst] at h; simp [Py.inst, h]
+  | sym _ => intro r h; simp [inst] at h; simp [Py.inst, h]
+  | mv id ef sf ps ns hs =>
+    intro r h; simp only [inst] at h; simp only [Py.inst]
+    cases hθ : θ id with
+    | none => simp [hθ] at h; simp [h]
+    | some q => simp only [hθ] at h; split at h <;> simp_all
+  | imp l r ihl ihr =>
+    intro q h; simp only [inst] at h
+    cases hl : inst θ l with
+    | none => simp [hl] at h
+    | some l' =>
+      cases hr : inst θ r with
+      | none => simp [hl, hr] at h
+      | some r' => simp [hl, hr] at h; subst h; simp [Py.inst, ihl l' hl, ihr r' hr]
+  | app l r ihl ihr =>
+    intro q h; simp only [inst] at h
+    cases hl : inst θ l with
+    | none => simp [hl] at h
+    | some l' =>
+      cases hr : inst θ r with
+      | none => simp [hl, hr] at h
+      | some r' => simp [hl, hr] at h; subst h; simp [Py.inst, ihl l' hl, ihr r' hr]
+  | ex x p ih =>
+    intro q h; simp only [inst] at h
+    cases hp : inst θ p with
+    | none => simp [hp] at h
+    | some p' => simp [hp] at h; subst h; simp [Py.inst, ih p' hp]
+  | mu x p ih =>
+    intro q h; simp only [inst] at h
+    cases hp : inst θ p with
+    | none => simp [hp] at h
+    | some p' => simp [hp] at h; subst h; simp [Py.inst, ih p' hp]
+  | esub p x plug ihp ihq =>
+    intro r h; simp only [inst] at h
+    cases hp : inst θ p with
+    | none => simp [hp] at h
+    | some p' =>
+      cases hq : inst θ plug with
+      | none => simp [hp, hq] at h
+      | some q' =>
+        simp [hp, hq] at h
+        simp only [Py.inst, ihp p' hp, ihq q' hq]
+        exact py_esubst_eq_rust x q' p' r h
+  | ssub p x plug ihp ihq =>
+    intro r h; simp only [inst] at h
+    cases hp : inst θ p with
+    | none => simp [hp] at h
+    | some p' =>
+      cases hq : inst θ plug with
+      | none => simp [hp, hq] at h
+      | some q' =>
+        simp [hp, hq] at h
+        simp only [Py.inst, ihp p' hp, ihq q' hq]
+        exact py_ssubst_eq_rust x q' p' r h
 
 /-- instantiation composes: instantiating twice equals instantiating once with the composed map
 (shaped patterns: see `Pat.Shape`; outside, `MetaVar.apply_esubst`'s e_fresh shortcut breaks it) -/
